@@ -29,13 +29,13 @@ CLAIMS = {
         "lineage dataflow of weighted choices + sampler membership/height rules + operand-interface typing",
         "Decides that population and weights of every weighted piece choice derive from the same sequence under the same filters, that the "
         "generic intersection/difference/union samplers test membership in all operands (with the 1 - 1/k multiplicity correction), that planar "
-        "samplers keep the region's height, that sampler code reads only attributes every Region has, that sibling ray queries of one function agree on their options, and that a cached prism is reused only when its z-interval contains the requested one. Does NOT decide uniformity statistically.",
+        "samplers keep the region's height, that sampler code reads only attributes every Region has, that sibling ray queries of one function agree on their options, that a cached prism is reused only when its z-interval contains the requested one, and that sampling geometry is not narrowed to single precision. Does NOT decide uniformity statistically.",
         "DESIGN.md section 3 C03",
     ),
     "C04": (
         "approximation-kind abstract domain (OVER/UNDER/DIST by provenance) over every early return of the overlap/containment tests",
         "Decides shortcut polarity: every constant early return of MeshVolumeRegion.intersects/containsObject, footprint containment and the "
-        "planar-box fast paths is dominated by a guard whose provenance-classified quantities prove that answer (radii and distances must be measured from the same reference point; an extent refutes containment only if a real point of the operand attains it); fall-through paths end in the "
+        "planar-box fast paths is dominated by a guard whose provenance-classified quantities prove that answer (radii and distances must be measured from the same reference point; an extent refutes containment only if a real point of the operand attains it), every computed early answer is one of a frozen list of exact predicates, precomputed shape data is moved with its own transform; fall-through paths end in the "
         "exhaustive computation. Does NOT decide numerical agreement with exact geometry.",
         "DESIGN.md section 3 C04",
     ),
@@ -49,7 +49,7 @@ CLAIMS = {
     "C06": (
         "manual<->code table extraction (RST reader + path enumeration of specifier functions), def-use of helpers, finite abstract interpretation of the priority fold",
         "Decides that every built-in specifier's (property, priority, modifies, dependencies) equals the reference manual, that declared "
-        "dependencies cover what helpers read, that class defaults declare exactly the dependencies of what they evaluate, that error paths of resolution are well-formed, and that the priority fold is order independent "
+        "dependencies cover what helpers read, that class defaults declare exactly the dependencies of what they evaluate, that the dependency search reports every cycle, that error paths of resolution are well-formed, and that the priority fold is order independent "
         "over an abstract domain of priorities. Does NOT decide the values computed by helpers.",
         "DESIGN.md section 3 C06",
     ),
@@ -57,12 +57,12 @@ CLAIMS = {
         "LinForm template of the six directional specifiers, name-derived sign table of corners, compiler->veneer and grammar->AST binding, parent-frame def-use",
         "Decides the bounding-box gap formula of left/right/ahead/behind/above/below as linear forms, the signs of all side/corner properties, "
         "that each emitted runtime call binds to its veneer definition, that grammar actions bind to syntax-node fields, and that facing-family "
-        "helpers read parentOrientation and apply it as a whole rotation (not one Euler angle), and that the angle-valued operators return normalised angles. Does NOT decide frame correctness of beyond/offset along/following numerically.",
+        "helpers read parentOrientation and apply it as a whole rotation (not one Euler angle), that the angle-valued operators return normalised angles, and that no argument's type is tested after it was coerced to a plain vector / scalar. Does NOT decide frame correctness of beyond/offset along/following numerically.",
         "DESIGN.md section 3 C07",
     ),
     "C08": (
         "abstract interpretation over ast.cmpop classes, bound-polarity tags from supportInterval, subset derivation grammar for conditionTo, loop-variant liveness",
-        "Decides that only <,<=,== yield bounds, that the abs-bound algebra is right on every path (symbolic path enumeration), that erosion uses LOWER-UPPER and growth UPPER bounds, that a visibility bound uses the viewer's own view distance, that the buffered bounding box grows on both sides, that every conditioned position draws from "
+        "Decides that bounds are inferred only from hard `require` statements, that only <,<=,== yield bounds, that a unary matcher refuses calls with further operands, that the abs-bound algebra is right on every path (symbolic path enumeration), that erosion uses LOWER-UPPER and growth UPPER bounds, that a visibility bound uses the viewer's own view distance, that the buffered bounding box grows on both sides, that every conditioned position draws from "
         "the base restricted by intersections only (at the base's height), that voxel retry loops vary what they retry, that voxel dilation has "
         "room and consistent units, and that unknown bounds are not used arithmetically. Does NOT decide geometric over-approximation numerically.",
         "DESIGN.md section 3 C08",
@@ -71,14 +71,14 @@ CLAIMS = {
         "dispatch/override/typing rules over the whole Region hierarchy (G1, G2, G3), z-propagation, identity table",
         "Decides double-dispatch hygiene (triedReversed forwarding, safe reversed retries), override signature agreement, unresolved names/attributes, "
         "operand-interface conformance, height propagation of planar results, reconstruction of lazy regions, nearest-hit selection and the "
-        "identity/annihilator laws of everywhere/nowhere, and membership in intersection/union/difference regions as truth tables over the operand queries. Does NOT decide mesh booleans or distances numerically.",
+        "identity/annihilator laws of everywhere/nowhere, membership in intersection/union/difference regions as truth tables over the operand queries, that nearest-hit selection minimises a distance, that sizes are compared within one dimensionality, and the containment test of the footprint cache. Does NOT decide mesh booleans or distances numerically.",
         "DESIGN.md section 3 C16",
     ),
     "C09": (
         "PEG grammar IR analysis (keyword-marker closure of Scenic alternatives), visitor classification of the compiler, located-node audit of grammar actions, structural comparison with CPython's own PEG grammar",
         "Decides that no Scenic alternative exposed to inherited Python rules can capture plain Python without a Scenic keyword (frozen, "
         "reasoned exceptions), that the compiler's Python-node visitors are the identity outside Scenic contexts and only perform the documented "
-        "rewrites with copied locations, that every grammar action building a located node passes its location, and that the Python part of the grammar has CPython's alternatives in CPython's order with helper arguments in the same positions (compared with CPython 3.11's own PEG grammar, frozen deviations listed). Does NOT decide equality "
+        "rewrites with copied locations, that every grammar action building a located node passes its location, and that the Python part of the grammar has CPython's alternatives in CPython's order with helper arguments in the same positions (compared with CPython 3.11's own PEG grammar, frozen deviations listed), and that the parser helper assembling ast.arguments keeps Python's order of parameter groups. Does NOT decide equality "
         "with CPython's AST over a corpus (differential testing).",
         "DESIGN.md section 3 C09",
     ),
@@ -86,7 +86,7 @@ CLAIMS = {
         "exhaustiveness of grammar-built nodes vs compiler visitors, raise/assert audit, token typing of grammar actions and parser helpers, pegen nullable analysis",
         "Decides that every node the grammar can build is compiled, that parser helpers and the compiler raise only Scenic syntax errors, that "
         "token-typed values are accessed only through TokenInfo fields (error construction cannot fail), that no repetition ranges over a "
-        "nullable item, that error actions do not index possibly-empty components and error reporting does not index past the end of a file, and that the veneer is deactivated in a finally. Does NOT decide totality over all byte strings.",
+        "nullable item, that error actions do not index possibly-empty components and error reporting does not index past the end of a file, that partial front-end operations (tokenizer line lookup, literal evaluation, literal concatenation) are protected, that temporal nodes outside propositions are syntax errors, that no keyword-only alternative shadows a longer one in an ordered choice, and that the veneer is deactivated in a finally. Does NOT decide totality over all byte strings.",
         "DESIGN.md section 3 C10",
     ),
     "C11": (
@@ -99,32 +99,32 @@ CLAIMS = {
     "C12": (
         "statement-order tables over Simulation._run and DynamicScenario._step cross-checked with the manual's numbered list",
         "Decides the order and once-per-step multiplicity of the landmarks of a time step in code and manual, the once-per-step logs and the "
-        "schedule check, and the written comparisons of the step limit and the scenario time limit. Does NOT decide the exact step at which each duration construct fires for every program.",
+        "schedule check, the written comparisons of the step limit and the scenario time limit, the exact seconds-to-steps conversion, and that statements executed at run time are filed by their kind. Does NOT decide the exact step at which each duration construct fires for every program.",
         "DESIGN.md section 3 C12",
     ),
     "C13": (
         "parity composition of compiler ordering and runtime scan, iterator-lifetime and suspension-site rules",
-        "Decides that the latest enabled interrupt clause wins (compiler reversal x runtime scan parity), that blocks resume where they "
+        "Decides that the latest enabled interrupt clause wins (compiler reversal x runtime scan parity), that the compiler's re-entrant state is saved / restored and emitted break/continue/return are re-visited in the enclosing context, that blocks resume where they "
         "stopped, that every suspension is followed by an invariant check, that guards are checked at start and that abandoned sub-behaviours "
         "are stopped. Does NOT decide behaviour for every interleaving.",
         "DESIGN.md section 3 C13",
     ),
     "C14": (
         "global write/reset accounting, context-manager restore rule, definite-assignment of cleanup reads, must-use token analysis",
-        "Decides that every veneer state global is reset in the phase that writes it, that context managers restore in finally, that the "
+        "Decides that every veneer state global is reset in the phase that writes it, that per-run state of the reused top-level scenario is reset, that context managers restore in finally, that the "
         "simulation cleanup cannot be skipped or crash on unassigned attributes, that override undo records are kept on every path, and that "
         "requirement evaluation restores what it rebinds. Does NOT decide third-party simulator cleanup.",
         "DESIGN.md section 3 C14",
     ),
     "C15": (
         "inter-procedural unordered->ordered taint into the sampling order, RNG save/restore bracket, private generator seeds",
-        "Decides that no hash-ordered collection reaches Scenario.dependencies, that requirement checking is bracketed by save/restore of "
+        "Decides that no hash-ordered collection reaches Scenario.dependencies or the other order sinks, that only sampling functions draw from the global generators, that requirement checking is bracketed by save/restore of "
         "both RNGs, and that internal generators use constant seeds. Does NOT decide bit-identity of third-party numerics.",
         "DESIGN.md section 3 C15",
     ),
     "C17": (
         "frame typestate over canSee, occluder monotonicity, wrapper/region agreement",
-        "Decides the translate-then-rotate order of frames in visibility, that occluders can only remove rays / return False, that canSee and "
+        "Decides the translate-then-rotate order of frames in visibility, that occluders can only remove rays / return False, that recorded target hits lie within the visible distance, that canSee and "
         "visibleRegion use the same pose and angles, and the occluder plumbing. Does NOT decide ray density sufficiency.",
         "DESIGN.md section 3 C17",
     ),
@@ -137,16 +137,17 @@ CLAIMS = {
     ),
     "C19": (
         "guard-dominance and weight-propagation rules over _invokeSubBehavior, shuffle loop shape, runtime sampling sequence",
-        "Decides that only enabled items enter the weighted choice with their own weights, that choose runs one and shuffle each exactly once, "
+        "Decides that only enabled items enter the weighted choice with their own weights (also when keys and weights are zipped), that the schedule keyword is forwarded unconditionally, that choose runs one and shuffle each exactly once, "
         "that an empty eligible set rejects, and that run-time distributions sample immediately from a fresh map and are recorded. Does NOT "
         "decide numerical probabilities.",
         "DESIGN.md section 3 C19",
     ),
     "C20": (
-        "must-pass-through guard of the cache, byte-layout agreement, reconnection coverage over the class hierarchy",
+        "must-pass-through guard of the cache, byte-layout agreement, reconnection coverage over the class hierarchy, finite interpretation of lane-id arithmetic",
         "Decides that the cached network is loaded only after version, map-digest and options-digest checks computed from the file bytes and "
-        "all options, that writer and reader agree on the layout, and that every element-referencing class is reconnected. Does NOT decide "
-        "anything about concrete maps (lookups, link reciprocity, tangents).",
+        "all options, that writer and reader agree on the layout, that every element-referencing class is reconnected, that the lane-id arithmetic "
+        "choosing left / right neighbours is reciprocal for all ids in -4..4 (finite interpretation), and that the tolerance neighbourhood of a lookup is "
+        "the Euclidean disc. Does NOT decide anything about concrete maps (geometry of lookups, tangents).",
         "DESIGN.md section 3 C20",
     ),
 }
